@@ -466,9 +466,60 @@ def r3(run: Run, rt, reach):
                               fact=f'coerced to {l!r} vs {r!r}', loc=loc)
 
 
+PROBE_PAIRS = [
+    (1, 2), (2, 1), (2, 2), (1.5, 1.25), (2, 2.0), (-1, 0), (0, 0.0), (10 ** 16 + 1, 10 ** 16), (10 ** 16 + 1, 10 ** 16 + 1), (0.1, 0.25),
+    (-2.5, -2), (3, 2.999), (7, -7),
+    ('_id', 'name'), ('[x', 'a'), ('^', 'z'), ('`a', 'b'), ('abc', 'abd'), ('abc', 'abc'), ('a', 'b'), ('', 'a'), ('ab', 'abc'), ('b', 'ab'),
+    ('name', '_id'), ('zeta', 'alpha'), ('x y', 'x z'), ('a-b', 'a_b'), ('mm', 'mm'), ('', ''),
+]
+OPS = {'==': lambda a, b: a == b, '!=': lambda a, b: a != b, '<': lambda a, b: a < b, '<=': lambda a, b: a <= b,
+       '>': lambda a, b: a > b, '>=': lambda a, b: a >= b}
+
+
+def r9_concrete_operands(run: Run, rt, rule='C10.R9'):
+    """the comparison helper evaluated (engine F) on concrete operands whose lawful order is beyond doubt: numbers compare by
+    value without loss (integers beyond 2**53 too), lower-case texts and texts that begin with a symbol compare character by
+    character -- folding the case must not move a letter across the symbols [ \\ ] ^ _ ` --, equal operands are equal"""
+    from ..finite import evaluator_for, AbsRaise
+    for cp in rt.copies():
+        fn = cp.members.get('_compare')
+        if fn is None:
+            run.bad(rule, f'_compare[{cp.label}]', 'missing', 'the comparison helper does not exist', loc=cp.path)
+            continue
+        for a, b in PROBE_PAIRS:
+            wrong = []
+            for op, f in OPS.items():
+                ev = evaluator_for(cp, max_depth=6)
+                try:
+                    res = ev.call_method('_compare', [const_av(op), const_av(a), const_av(b)])
+                    got = res.val if isinstance(res.val, bool) else repr(res)
+                except Unknown as u:
+                    raise AnalysisError(rule, f'_compare[{cp.label}]({a!r} {op} {b!r}): the abstraction cannot follow the helper ({u})')
+                except AbsRaise as e:
+                    got = f'raises {e.exc}'
+                if got != f(a, b):
+                    wrong.append((op, got, f(a, b)))
+            run.check(not wrong, rule, f'_compare[{cp.label}]/{a!r} vs {b!r}', 'concrete-comparison',
+                      'the comparison helper gives ' + '; '.join(f'{a!r} {op} {b!r} -> {g!r} (lawful: {w!r})' for op, g, w in wrong[:4]),
+                      fact='all six operators lawful', loc=cp.loc(fn))
+
+
 def run(run: Run):
     src = get_source()
     rt = get_runtime(src)
+    run.rule('C10.R9', 'concrete operands: numbers by value without loss, texts character by character, equal is equal')
+    run.guard('C10.R9', r9_concrete_operands, run, rt)
+    run.floor('C10.R9', 40)
+    from . import c04 as _c04
+    from .common import borrow as _borrow
+    run.rule('C10.R8', 'an operand supplied as an override reaches the comparison as supplied, falsy values included (shared with C04.R2)')
+    _borrow(run, 'C10.R8', _c04.r2_eval, rt)
+    run.floor('C10.R8', 10)
+    from . import lexer_eval as _lx
+    from ..grammar import get_grammar as _gg
+    run.rule('C10.R7', 'a number literal operand reaches the comparison as the number it denotes (shared with C05.R3)')
+    run.guard('C10.R7', _lx.number_literal_obligations, run, 'C10.R7', src, _gg(src))
+    run.floor('C10.R7', 10)
     run.rule('C10.R1', 'no lossy coercion / operand mix-up before _by_operator over all operand-kind pairs')
     run.rule('C10.R2', '_by_operator maps every emitted operator string to the same-meaning comparison')
     run.rule('C10.R3', 'blank-cell comparison laws over the classes that reach them')
